@@ -23,6 +23,7 @@ import (
 	"github.com/tikv/client-go/v2/txnkv"
 
 	"github.com/kubewharf/kubebrain/pkg/storage"
+	"github.com/kubewharf/kubebrain/pkg/verifhook"
 )
 
 type batch struct {
@@ -120,6 +121,7 @@ func (b *batch) Commit(ctx context.Context) (err error) {
 		}
 	}
 
+	verifhook.Point("tikv.beforeCommit", b, ctx)
 	err = b.txn.Commit(ctx)
 
 	if err != nil {
